@@ -156,6 +156,10 @@ class ExactEval(BaseEval):
             raise EvalError("DeriveKeyPair: no valid candidate")
         if tag in ("aeadct", "aeadtag"):
             return self.aead(t)
+        if tag == "mkxy":                        # ["mkxy", kem, recipe, i]: adversarial coordinate pairs (C09)
+            return make_xy(KEM_CURVE[t[1]], t[2], t[3])
+        if tag == "mksk":                        # ["mksk", kem, recipe, i]: scalars around the group order
+            return make_sk(KEM_CURVE[t[1]], t[2], t[3])
         raise EvalError("unknown term tag %r" % (tag,))
 
     def pk(self, kem, sk):
@@ -248,3 +252,94 @@ def leaves_of(x, acc=None):
         for y in x.values():
             leaves_of(y, acc)
     return acc
+
+
+# ---- constructors of test inputs for public / private key validation (C09) -----------------------------
+import random as _random
+
+
+def _rng(*parts):
+    return _random.Random("|".join(str(p) for p in parts))
+
+
+import functools
+
+
+@functools.lru_cache(maxsize=None)
+def make_xy(curve, recipe, i):
+    """X || Y (fixed width) for the named recipe; see spec/MC_Codec.tla XyRecipes"""
+    c = prims.CURVES[curve]
+    p, n = c.p, c.coord_len
+    top = (1 << (8 * n)) - 1
+    r = _rng("xy", curve, recipe, i)
+    x, y = prims.nist_random_point(curve, r)
+    if recipe == "point":
+        X, Y = x, y
+    elif recipe == "negpoint":
+        X, Y = x, p - y
+    elif recipe == "yplus1":
+        X, Y = x, (y + 1) % p
+    elif recipe == "otherb":
+        X, Y = prims.nist_point_other_b(curve, r)
+    elif recipe == "twistx":
+        X, Y = prims.nist_twist_x(curve, r), r.randrange(p)
+    elif recipe == "zerozero":
+        X, Y = 0, 0
+    elif recipe == "swapxy":
+        X, Y = y, x
+    elif recipe == "xplusp":
+        # a curve point whose abscissa is small enough for x + p to fit: a non-canonical encoding of a VALID point
+        x0 = 1000 * i
+        while True:
+            y0 = prims.nist_lift_x(curve, x0)
+            if y0 is not None and x0 + p <= top:
+                break
+            x0 += 1
+        X, Y = x0 + p, y0
+    elif recipe == "yplusp":
+        if y + p > top:
+            raise EvalError("y + p does not fit on " + curve)
+        X, Y = x, y + p
+    elif recipe == "xmax":
+        X, Y = top, y
+    elif recipe == "ymax":
+        X, Y = x, top
+    elif recipe == "xisp":
+        X, Y = p, y
+    elif recipe == "yisp":
+        X, Y = x, p
+    else:
+        raise EvalError("unknown xy recipe " + recipe)
+    return X.to_bytes(n, "big") + Y.to_bytes(n, "big")
+
+
+@functools.lru_cache(maxsize=None)
+def make_sk(curve, recipe, i):
+    c = prims.CURVES[curve]
+    N, order = c.sk_len, c.n
+    top = (1 << (8 * N)) - 1
+    r = _rng("sk", curve, recipe, i)
+    v = {"zero": 0, "one": 1, "nminus1": order - 1, "n": order, "nplus1": order + 1, "max": top}.get(recipe)
+    if recipe == "mid":
+        v = r.randrange(2, order - 1)
+    elif recipe == "nplusmid":
+        v = order + r.randrange(2, top - order)
+    elif recipe == "bit520":
+        v = (1 << 520) + r.randrange(1 << 519)
+    elif recipe == "bit521":
+        v = (1 << 521) + r.randrange(1 << 520)
+    elif recipe == "bit527":
+        v = (1 << 527) + r.randrange(1 << 520)
+    if v is None:
+        raise EvalError("unknown sk recipe " + recipe)
+    return v.to_bytes(N, "big")
+
+
+def sec1_facts(curve, b):
+    """(length ok, leading byte, X < p, Y < p, (X mod p, Y mod p) on the curve) straight from the SEC1 definition"""
+    c = prims.CURVES[curve]
+    if len(b) != c.pk_len:
+        return (False, b[0] if b else None, None, None, None)
+    X = int.from_bytes(b[1:1 + c.coord_len], "big")
+    Y = int.from_bytes(b[1 + c.coord_len:], "big")
+    return (True, b[0], X < c.p, Y < c.p, prims.nist_on_curve(curve, X % c.p, Y % c.p))
